@@ -402,6 +402,56 @@ theorem root_hash_merge (cfg : Config) (la ra : Option Str) (l r : List (Key × 
       | error e => simp [rootTagSync]
       | ok m => simp [rootTagSync, tagOf]
 
+/-- Well-formedness is closed under the merge: when neither side has duplicate keys the merged
+mapping has none either (so the `Nodup` hypothesis of the theorems above is again available for the
+result, e.g. for the next record merged into the same Array-of-Hashes element). -/
+theorem merge_keys_nodup (env : Env) (la : Option Str) (l : List (Key × Node)) (par : Node)
+    (r : List (Key × Node)) (m : Node) (h : mergeDicts env (.map la l) par r = .ok m)
+    (hl : (keys l).Nodup) (hr : (keys r).Nodup) :
+    ∃ es, m = .map la es ∧ (keys es).Nodup := by
+  obtain ⟨es, hm, h1, h2⟩ := merge_order_ok env la l par r m h hr
+  refine ⟨es, hm, nodup_of_filter (fun k => (keys l).contains k) _ (by rw [h1]; exact hl) ?_⟩
+  rw [h2]
+  exact List.Nodup.sublist List.filter_sublist hr
+
+/-- Under a shared key a right-hand Array is merged by `_merge_lists` (simple lists:
+`array_merge_eq_spec`; Arrays-of-Hashes: `aoh_deep_eq_spec` …). -/
+theorem mergeVal_seq_eq_mergeLists (env : Env) (lv : Node) (c : Coords) (ra : Option Str)
+    (ritems : List Node) :
+    mergeVal env lv c (.seq ra ritems) = mergeLists env lv ra ritems c := by
+  simp only [mergeVal]
+  have h := mergeLists_nc env lv ra ritems c
+  unfold syncTag
+  cases hd : mergeLists env lv ra ritems c with
+  | error e => rfl
+  | ok m => simp only [tagOf_ok_of_container (.inl (h.2 m hd))]
+
+/-- Under a shared key a right-hand Set is merged by `_merge_sets` (`set_merge_eq_spec`). -/
+theorem mergeVal_set_eq_mergeSets (env : Env) (lv : Node) (c : Coords) (ra : Option Str)
+    (rms : List Key) :
+    mergeVal env lv c (.set ra rms) = mergeSets env lv ra rms c := by
+  simp only [mergeVal]
+  have h := mergeSets_ok env lv ra rms c
+  unfold syncTag
+  cases hd : mergeSets env lv ra rms c with
+  | error e => rfl
+  | ok m => simp only [tagOf_ok_of_container (.inr (.inr (h.2 m hd)))]
+
+/-- At the root an Array merged into an Array is `_merge_lists` with the right-hand root's policy. -/
+theorem root_list_merge (cfg : Config) (la ra : Option Str) (l r : List Node) :
+    mergeWith cfg (.seq la l) (.seq ra r) =
+      mergeLists (prepare cfg (.seq ra r)) (.seq la l) ra r ⟨.seq ra r, none, none⟩ := by
+  simp only [mergeWith, insertList]
+  cases hd : mergeLists (prepare cfg (.seq ra r)) (.seq la l) ra r ⟨.seq ra r, none, none⟩ with
+  | error e => simp [rootTagSync]
+  | ok m => simp [rootTagSync, tagOf]
+
+/-- `_merge_lists` of a right-hand list whose first element is not a Hash is `_merge_simple_lists`. -/
+theorem mergeLists_simple (env : Env) (lv : Node) (ra : Option Str) (first : Node) (rrest : List Node)
+    (c : Coords) (hf : isMap first = false) :
+    mergeLists env lv ra (first :: rrest) c = mergeSimple env lv ra (first :: rrest) c := by
+  cases first <;> simp_all [mergeLists, isMap]
+
 /-! ## Array-of-Hashes DEEP merges by identity key -/
 
 /-- **merge_content_eq_spec** (Array-of-Hashes, DEEP): when the first right-hand element is a Hash
@@ -489,6 +539,18 @@ theorem aoh_deep_lhs_only_preserved (env : Env) (idKey : Key) (litems ritems out
         out[i]? = some x) ∧
     litems.length ≤ out.length ∧ out.length ≤ litems.length + ritems.length :=
   ⟨fun i x hx hno => AohDeep_keeps h i x hx hno, AohDeep_length h⟩
+
+/-- **hash_deep_keys** for Array-of-Hashes DEEP (nothing is lost, at key level): every left-hand
+element is still at its position, either unchanged or — a Hash — grown to a Hash with at least its
+keys (`Spec.KeysGrow`); and every right-hand record's keys are all present in some Hash of the
+result (the record itself where it was appended, or the element it was merged into, possibly grown
+further by later records). -/
+theorem aoh_deep_keys (env : Env) (idKey : Key) (litems ritems out : List Node)
+    (h : AohDeep env idKey litems ritems out) :
+    (∀ (i : Nat) (x : Node), litems[i]? = some x → ∃ y, out[i]? = some y ∧ KeysGrow x y) ∧
+    (∀ a es, Node.map a es ∈ ritems →
+      ∃ y ∈ out, ∃ a' es', y = .map a' es' ∧ ∀ k ∈ keys es, k ∈ keys es') :=
+  AohDeep_grows h
 
 /-! ## Witnesses: the hypotheses are met by concrete values, and the interleaving of the design note -/
 
